@@ -330,6 +330,14 @@ def lossless_tests(nruns, seed):
             opt.evolve_until_convergence(max_generations=g1 + 2, fitness_threshold=-1e300, convergence_check_frequency=1)
         else:
             opt.evolve(g1)
+        if kind == "island-agraph":
+            # a seed equation put in by hand right before the dump: it carries real constants and has never been evaluated or
+            # printed (its simplified form is still pending)
+            from bingo.symbolic_regression.agraph.agraph import AGraph
+            seeded = AGraph()
+            seeded.command_array = np.array([[1, 0, 0], [1, 1, 1], [0, 0, 0], [4, 0, 2], [2, 3, 1], [0, 0, 0], [4, 2, 5], [2, 4, 6]], dtype=int)
+            seeded.set_local_optimization_params((2.5, 1.25))
+            opt.population[0] = seeded
         path = os.path.join(work, "t.pkl")
         deep_pre = dill.dumps(opt)
         opt.dump_to_file(path)
